@@ -52,7 +52,11 @@ func apiOps() []apiOp {
 		{"RegisterRuneFallback", func(s tcell.Screen) { s.RegisterRuneFallback(0x2603, "*") }, true, false},
 		{"UnregisterRuneFallback", func(s tcell.Screen) { s.UnregisterRuneFallback(tcell.RuneBullet) }, true, false},
 		{"SetTitle", func(s tcell.Screen) { s.SetTitle("t") }, true, false},
-		{"SetClipboard", func(s tcell.Screen) { s.SetClipboard([]byte("c")) }, true, false},
+		{"SetClipboard", func(s tcell.Screen) {
+			b := []byte("c")
+			s.SetClipboard(b)
+			b[0] = 'd' // the buffer is the caller's again once the call has returned
+		}, true, false},
 		{"GetClipboard", func(s tcell.Screen) { s.GetClipboard() }, false, false},
 		{"LockRegion", func(s tcell.Screen) { s.LockRegion(0, 0, 1, 1, true) }, true, false},
 		{"PostEvent", func(s tcell.Screen) { _ = s.PostEvent(tcell.NewEventInterrupt(1)) }, true, false},
@@ -71,6 +75,11 @@ func apiOps() []apiOp {
 			}
 		}, true, true},
 		{"GetCursor", func(s tcell.Screen) { s.(tcell.SimulationScreen).GetCursor() }, true, true},
+		{"GetClipboardData", func(s tcell.Screen) {
+			if d := s.(tcell.SimulationScreen).GetClipboardData(); len(d) > 0 {
+				_ = d[0] // the caller looks at what it was given
+			}
+		}, true, true},
 		{"InjectKey", func(s tcell.Screen) { s.(tcell.SimulationScreen).InjectKey(tcell.KeyRune, 'k', tcell.ModNone) }, true, true},
 		{"InjectKeyBytes", func(s tcell.Screen) { s.(tcell.SimulationScreen).InjectKeyBytes([]byte{0xc4, 0xe3, 'a'}) }, true, true},
 		{"InjectMouse", func(s tcell.Screen) { s.(tcell.SimulationScreen).InjectMouse(1, 1, tcell.Button1, tcell.ModNone) }, true, true},
